@@ -18,9 +18,30 @@ namespace sim {
 struct ImplRun {
   std::string outcome, errtext, out; std::map<std::string, std::string> store; std::string residue;
   long steps = 0; bool budget_exceeded = false; bool parsed = true; std::string parse_error;
+  std::vector<size_t> rejected_units;   // indices of units the compiler refused
   std::string constants;    // set when the text unparsed from an executable differs before and after its run
   std::string uniform;      // first container uniformity violation seen at any statement boundary
   std::string constraint;   // first violated type constraint ('$' names, loop iterators) seen at any step
+};
+
+// "A '$' variable and a for/forall iterator inside its loop keep their major type for as long as the constraint is
+// active": from the step a constraint is seen active on a symbol, the major type of its (dereferenced, non-null) value
+// must not change until the constraint is released.
+struct ConstraintMonitor {
+  std::map<std::pair<const void*, unsigned>, int> held;   // (context, symbol id) -> major type while constrained
+  std::string violation;
+  void step(bloc::Context& c) {
+    size_t cnt = c.verifSymbolCount();
+    for (size_t i = 0; i < cnt; ++i) {
+      bloc::Symbol& s = c.getSymbol((unsigned)i); auto key = std::make_pair((const void*)&c, (unsigned)i);
+      if (!s.safety()) { held.erase(key); continue; }
+      bloc::Value& v = c.loadVariable((unsigned)i).deref_value();
+      int major = (int)v.type().major(); if (major == (int)bloc::Type::NO_TYPE) continue;
+      auto it = held.find(key);
+      if (it == held.end()) held[key] = major;
+      else if (it->second != major && violation.empty()) violation = s.name() + ": constrained while holding " + std::string(bloc::Type::typeName((bloc::Type::TypeMajor)it->second)) + " but now holds " + type_str(v.type());
+    }
+  }
 };
 
 inline std::vector<FaultSpec> faults_of(const json& plan) {
@@ -54,24 +75,24 @@ inline ImplRun impl_run(const std::vector<std::string>& units, const std::vector
   {
     bloc::Context ctx(cap.fd(), cap.fd()); ctx.trusted(true);
     std::vector<bloc::Executable*> exes;
-    StepGuard g(budget); long n = 0;
+    StepGuard g(budget); long n = 0; ConstraintMonitor cm;
     g.extra = [&](bloc::Context& c, const bloc::Statement*) {
       ++n;
       if (cancel_at > 0 && n == cancel_at) bloc_break(reinterpret_cast<bloc_context*>(&ctx));
       if (per_step_checks) {
-        // a '$' variable / a loop iterator keeps its major type while the constraint is active
+        cm.step(c); if (r.constraint.empty()) r.constraint = cm.violation;
         size_t cnt = c.verifSymbolCount();
-        for (size_t i = 0; i < cnt && r.constraint.empty(); ++i) { bloc::Symbol& s = c.getSymbol((unsigned)i); if (s.safety()) { bloc::Value& v = c.loadVariable((unsigned)i).deref_value(); if (v.type().major() != bloc::Type::NO_TYPE && s.major() != bloc::Type::NO_TYPE && v.type().major() != s.major()) r.constraint = s.name() + ": constrained to " + type_str(s) + " but holds " + type_str(v.type()); } }
         if (r.uniform.empty() && &c == &ctx) { for (size_t i = 0; i < cnt && r.uniform.empty(); ++i) { std::string u = check_uniform(c.loadVariable((unsigned)i)); if (!u.empty()) r.uniform = c.getSymbol((unsigned)i).name() + u; } }
       }
     };
-    r.outcome.clear(); bool first = true;
+    r.outcome.clear(); bool first = true; size_t ui = 0;
     for (auto& text : units) {
+      size_t this_unit = ui++;
       // the host reports an error of a unit and goes on with the next unit in the same context
       std::string oc = "ok";
       bloc::Executable* exe = nullptr;
       Outcome o = parse_text(ctx, text, exe);
-      if (!o.ok()) { r.parsed = false; r.parse_error = o.str() + " " + o.text; oc = o.str(); }
+      if (!o.ok()) { r.parsed = false; r.parse_error = o.str() + " " + o.text; oc = o.str(); r.rejected_units.push_back(this_unit); }
       else {
         exes.push_back(exe);
         ctx.returnCondition(false);
